@@ -37,6 +37,12 @@ func buildTailBase(ch core.Chooser, st *core.Stats) (*tailBase, error) {
 	if err := s.runOps(ch.Int("nops", 1, core.Scale(30, 60)), []int{8, 3, 1, 0, 1, 0, 0}); err != nil {
 		return nil, err
 	}
+	if s.numSegments() == 0 {
+		// compaction emptied the log: there is no segment whose tail could be damaged
+		if err := s.put(ukeys[0], 10); err != nil {
+			return nil, err
+		}
+	}
 	if core.Bool(ch, "cleanclose") {
 		if err := s.closeDB(); err != nil {
 			return nil, err
